@@ -116,6 +116,6 @@ def main():
     }
     json.dump(m, open(os.path.join(VERIF, 'MANIFEST.json'), 'w'), indent=1)
 
-NA = {}
+NA = {'C04': 'Delivery of a signal to every subscriber of every loop on that loop\'s thread, and restoration of the previous disposition, are properties of the kernel signal machinery, an asynchronous handler and a process-wide std::map shared between threads: CBMC function contracts have no model of asynchronous signal delivery or of sigaction state across calls beyond restating the code, and the one per-call fact within reach (tear-down only when the last loop unsubscribes) needs std::map/std::set content models that do not exist in this machinery (DESIGN.md I.8). No check is registered.'}
 if __name__ == '__main__':
     main()
